@@ -128,6 +128,7 @@ func (simValidator) Select(key string, vals [][]byte) (int, error) {
 // ---------------------------------------------------------------------------
 
 type lookupEnv struct {
+	hung   map[*sim.Parked]bool // store requests whose recipient hangs: never released, only ever aborted
 	sc     *Scenario
 	u      *sim.Universe
 	host   *sim.FakeHost
@@ -428,6 +429,20 @@ func (e *lookupEnv) pbPeers(ranks []int, noaddr []int) []*pb.Message_Peer {
 
 // release completes one parked item according to the peer's script and logs
 // the Deliver event.
+// live: the parked items the schedule may still pick (hung store requests are out of its hands)
+func (e *lookupEnv) live(items []*sim.Parked) []*sim.Parked {
+	if len(e.hung) == 0 {
+		return items
+	}
+	out := items[:0:0]
+	for _, it := range items {
+		if !e.hung[it] {
+			out = append(out, it)
+		}
+	}
+	return out
+}
+
 func (e *lookupEnv) release(it *sim.Parked) {
 	if it.Kind == "dial" {
 		p := it.Payload.(peer.ID)
@@ -447,6 +462,15 @@ func (e *lookupEnv) release(it *sim.Parked) {
 	rpc := it.Payload.(*sim.RPC)
 	s := e.script(rpc.Peer)
 	typ := rpc.Msg.GetType()
+	if (typ == pb.Message_ADD_PROVIDER && s.AddProv == "hang") || (typ == pb.Message_PUT_VALUE && s.PutEcho == "hang") {
+		// the recipient of a store request neither answers nor fails: the request stays where it is until
+		// whoever sent it gives up (its own time budget, the caller's deadline or cancellation, Close)
+		if e.hung == nil {
+			e.hung = map[*sim.Parked]bool{}
+		}
+		e.hung[it] = true
+		return
+	}
 	o := sim.RPCOutcome{}
 	res := "ok"
 	closer, provs, val, vkey := []int{}, []int{}, "", true
